@@ -850,6 +850,8 @@ int reb_integrator_whfast_init(struct reb_simulation* const r){
     if (ri_whfast->N_allocated != N){
         ri_whfast->N_allocated = N;
         ri_whfast->p_jh = realloc(ri_whfast->p_jh,sizeof(struct reb_particle)*N);
+        // Not all members get assigned (e.g. r, hash). Avoid uninitialized memory ending up in binary files and comparisons.
+        memset(ri_whfast->p_jh, 0, sizeof(struct reb_particle)*N);
         ri_whfast->recalculate_coordinates_this_timestep = 1;
     }
     return 0;
